@@ -28,6 +28,12 @@ CLAIMED = {
   "note": "Trusted: Lean kernel + three standard axioms; binary_search_by modelled as lower bound (equal on lists with distinct sorted positions, which OInv guarantees); the layout model takes resolved items (bits, reserve sizes, alignments, addresses) - their resolution is C02's; usize overflow of cur_position + size is not modelled here (C19).",
   "technique": "Lean 4 proof (loop invariant, induction over operation histories) + model/implementation correspondence",
  },
+ "C13": {
+  "text": "Lean 4 theorems over the model of CharCounter and Span::join (Casm/Props/C13.lean): linecol_correct - for every text (any mix of 1-4-byte characters) and every position on a character boundary, the reported line is the number of line breaks before the position and the column the number of characters since the last one; line_range_correct - the byte range of line k starts after the k-th line break and ends after the next; linecol_past_end; join_hull; the fallback Error token spans one whole character (extracted from token.rs). Tie: CharCounter is run on random multi-byte texts at every kind of index against the model and the definition; two-file programs with one injected fault of five kinds are assembled and the first error must lie on the faulty line of the right file, every location of every message must be a byte range on character boundaries inside an existing file, and the printed line:column must equal the definition.",
+  "design_ref": "DESIGN.md section 6, C13",
+  "note": "Trusted: Lean kernel + three standard axioms; 'first error on the faulty line' is established by the fault-injection search on the implementation, not by a theorem (the whole-assembler model of error order is not built); missing operands at the end of a line blame the next line (known finding F23).",
+  "technique": "Lean 4 proof (induction over the text) + model/implementation correspondence + fault injection",
+ },
 }
 
 NOT_YET = {}
